@@ -338,6 +338,17 @@ func c08(r *Report, s *Sem) {
 			if st.Parent() != wrapper || !fieldOf(st.Val, reply, f.src) || !estEdge(st.Block()) {
 				ok = false
 			}
+			// … and on nothing else about the channel: a store also conditioned on the previous state (adopt only on the
+			// transition) keeps the nodes of an earlier envelope when the establishment is reported with a later one
+			for _, me := range mustEdges(st.Block()) {
+				for _, cd := range impliedConds(ifOf(me.from), me.succ == 0) {
+					for _, v := range []ssa.Value{cd.X, cd.Y, cd.Val} {
+						if v != nil && s.isStateRead(stripConv(v)) {
+							ok = false
+						}
+					}
+				}
+			}
 		}
 		r.Check(R3, "client channel."+f.name+" / adopted from the established reply's "+f.src, p.pos(wrapper.Pos()), ok && n == 1, fmt.Sprintf("%d client-side store(s); each must be in the read wrapper, from reply.%s, on the State == established edge", n, f.src))
 	}
